@@ -24,7 +24,7 @@ def _env():
 
 def run_worker(job):
     budget = float(job.get("budget", 60))
-    grace = 30 + budget * 0.5
+    grace = 60 + budget * 1.0
     t0 = time.monotonic()
     try:
         p = subprocess.run([PY, "-X", "faulthandler", "-m", "vf.worker"],
